@@ -17,7 +17,7 @@ import warnings
 
 from ..engine import REPO
 
-FORMATS = ["xyz", "sdf", "mol2"]
+FORMATS = ["xyz", "sdf", "mol2", "pdb"]
 EXT = {"xyz": (".xyz",), "sdf": (".sdf",), "mol2": (".mol2",), "pdb": (".pdb",), "cube": (".cube", ".cub"),
        "gromacs": (".gro",)}
 CLASSES = ["ValueError", "IndexError", "KeyError", "StopIteration", "TypeError", "LoadError", "OverflowError",
@@ -212,6 +212,16 @@ def _generated(fmt: str) -> list[tuple[str, str]]:
             ("gen-order", "@<TRIPOS>BOND\n 1 1 2 1\n@<TRIPOS>ATOM\n 1 C 0 0 0 C.3\n@<TRIPOS>MOLECULE\nm\n1 0\n"
                           "@<TRIPOS>ATOM\n 1 C 0 0 0 C.3\n"),
             ("gen-nobond", "@<TRIPOS>MOLECULE\nm\n 2 1\n@<TRIPOS>ATOM\n 1 Xx1 0 0 0 Du 1 R 0.0\n 2 h 0 0 1e0 H\n x\n"),
+        ],
+        "pdb": [
+            ("gen-water", "TITLE     water\nCOMPND    MOL\n"
+                          "HETATM    1  O   HOH A   1       0.000   0.000   0.100  1.00  0.00           O  \n"
+                          "HETATM    2  H1  HOH A   1       0.700   0.000  -0.400  1.00  0.00           H  \n"
+                          "ATOM      3  H2  HOH     1      -0.700   0.000  -0.400  1.00  0.00              \n"
+                          "CONECT    1    2    3\nCONECT    2    1\nCONECT    3    1\nEND\n"),
+            ("gen-noend", "REMARK x\nEND\nATOM      1 CL   UNK     1       1.000   2.000   3.000  0.50 10.00\n"
+                          "ATOM      2      UNK     2       1.000   2.000   3.000  0.50 10.00          ZN\nENDMDL\n"
+                          "ATOM      3  C   UNK     3       1.000   2.000   3.000  0.50 10.00\n"),
         ],
         "sdf": [
             ("gen-water", "water\n  iodata\n\n  3  2  0     0  0  0  0  0  0999 V2000\n"
